@@ -722,7 +722,7 @@ def run(shard, rec, rng):
 
 def laws(W, rec):
     DS = W["DS"]
-    pairs_pool = [[], [("a", "1")], [("a", "1"), ("a", "2")], [("a", "1"), ("b", "2"), ("a", "3")], [("A", "1"), ("a", "2")]]
+    pairs_pool = [[], [("a", "1")], [("a", "1"), ("a", "2")], [("a", "1"), ("b", "2"), ("a", "3")], [("A", "1"), ("a", "2")], [("x", "1"), ("y", "2"), ("z", "3")]]
     MUT_MD = {"__setitem__": ("a", "9"), "__delitem__": ("a",), "add": ("a", "9"), "setlist": ("a", ["9"]), "setdefault": ("z", "9"),
               "setlistdefault": ("z", ["9"]), "update": ({"a": "9"},), "__ior__": ({"a": "9"},), "pop": ("a",), "popitem": (), "poplist": ("a",),
               "popitemlist": (), "clear": ()}
@@ -755,6 +755,10 @@ def laws(W, rec):
             reject_all(d, MUT_MD, lambda o: list(o.items(multi=True)), cls.__name__, pairs)
             e = cls(pairs)
             law("C08/eq-hash:ImmutableMultiDict", d == e and hash(d) == hash(e), "equal objects hash differently", pairs)
+            for perm in itertools.permutations(pairs):
+                e2 = cls(list(perm))
+                if e2 == d:
+                    law("C08/eq-hash:ImmutableMultiDict", hash(e2) == hash(d) and len({d, e2}) == 1 and e2 in {d}, f"equal objects (different insertion order {list(perm)!r}) hash differently", pairs)
             for proto in range(0, pickle.HIGHEST_PROTOCOL + 1):
                 p = pickle.loads(pickle.dumps(d, proto))
                 law("C08/pickle:ImmutableMultiDict", p == d and type(p) is cls and list(p.items(multi=True)) == before, f"proto {proto}: {list(p.items(multi=True))!r}", pairs)
@@ -770,6 +774,8 @@ def laws(W, rec):
             reject_all(d, {"__setitem__": ("a", "9"), "__delitem__": ("a",), "setdefault": ("z", "9"), "update": ({"a": "9"},), "__ior__": ({"a": "9"},),
                            "pop": ("a",), "popitem": (), "clear": ()}, dict, cls.__name__, pairs)
             law(f"C08/eq-hash:{cls.__name__}", hash(d) == hash(cls(dict(pairs))), "hash differs", pairs)
+            rev = cls(dict(reversed(list(dict(pairs).items()))))
+            law(f"C08/eq-hash:{cls.__name__}", rev == d and hash(rev) == hash(d) and rev in {d}, f"equal objects with reversed insertion order hash differently: {dict(rev)!r}", pairs)
             for proto in range(0, pickle.HIGHEST_PROTOCOL + 1):
                 p = pickle.loads(pickle.dumps(d, proto))
                 law(f"C08/pickle:{cls.__name__}", p == d and type(p) is cls, f"proto {proto}", pairs)
